@@ -105,6 +105,53 @@ theorem C18_lookup_table (t : KV) (ht : Sorted t) (rows : List LRow) (hb : ∀ r
   rw [← C17_roundtrip_lookup t ht rows hb hm]
   exact C18_lookup rows hb k hk
 
+/-! ## the composite loaders (`Encoder::load`, `Blueprint::load`, anchors: mccfr/blueprint.rs) -/
+
+theorem loadEncoder_step_none (fs : List Bytes) :
+    fs.foldl (fun acc f =>
+      match acc, loadLookup f with
+      | some m, some l => some (l.foldl (fun a p => insertKV p.1 p.2 a) m)
+      | _, _ => none) (none : Option KV) = none := by
+  induction fs with
+  | nil => rfl
+  | cons f fs ih => simpa [List.foldl_cons] using ih
+
+/-- one street file that does not load makes `Encoder::load` fail, whatever the other files are -/
+theorem loadEncoder_none_of_part (pre post : List Bytes) (f : Bytes) (h : loadLookup f = none) :
+    loadEncoder (pre ++ f :: post) = none := by
+  simp only [loadEncoder, List.foldl_append, List.foldl_cons, h]
+  have : ∀ acc : Option KV, (match acc, (none : Option KV) with
+      | some m, some l => some (l.foldl (fun a p => insertKV p.1 p.2 a) m)
+      | _, _ => none) = none := by
+    intro acc; cases acc <;> rfl
+  rw [this]
+  exact loadEncoder_step_none post
+
+/-- **C18, `Encoder::load`**: with ANY street's lookup file cut at ANY byte (the other files being
+    whatever they are), the composite load fails — a street is never silently missing. -/
+theorem C18_encoder_fails (pre post : List Bytes) (rows : List LRow) (hb : ∀ r ∈ rows, LRow.ok r)
+    (k : Nat) (hk : k < (saveLookup rows).length) :
+    loadEncoder (pre ++ (saveLookup rows).take k :: post) = none :=
+  loadEncoder_none_of_part pre post _ (C18_lookup_fails rows hb k hk)
+
+/-- **C18, `Blueprint::load`**: a cut in the blueprint file or in any street's lookup file fails it -/
+theorem C18_blueprint_all_fails_profile (rows : List PRow) (hb : ∀ r ∈ rows, PRow.ok r)
+    (k : Nat) (hk : k < (saveBlueprint rows).length) (lookups : List Bytes) :
+    loadBlueprintAll ((saveBlueprint rows).take k) lookups = none := by
+  simp [loadBlueprintAll, C18_blueprint_fails rows hb k hk]
+
+theorem C18_blueprint_all_fails_lookup (profile : Bytes) (pre post : List Bytes) (rows : List LRow)
+    (hb : ∀ r ∈ rows, LRow.ok r) (k : Nat) (hk : k < (saveLookup rows).length) :
+    loadBlueprintAll profile (pre ++ (saveLookup rows).take k :: post) = none := by
+  simp only [loadBlueprintAll, C18_encoder_fails pre post rows hb k hk]
+  cases loadBlueprint profile <;> rfl
+
+-- non-vacuity: four complete street files load and merge; cutting the third one fails
+example : loadEncoder [saveLookup [⟨1, 10⟩], saveLookup [⟨2, 20⟩], saveLookup [⟨3, 30⟩, ⟨4, 40⟩], saveLookup [⟨5, 50⟩]]
+    = some [(1, 10), (2, 20), (3, 30), (4, 40), (5, 50)] := by decide +kernel
+example : loadEncoder [saveLookup [⟨1, 10⟩], saveLookup [⟨2, 20⟩], (saveLookup [⟨3, 30⟩, ⟨4, 40⟩]).take 45, saveLookup [⟨5, 50⟩]]
+    = none := by decide +kernel
+
 /-- the complete file does load (so the theorems above are not about a loader that always fails) -/
 theorem C18_complete_loads_transitions (conv : Nat → Nat) (rows : List TRow) (hb : ∀ r ∈ rows, TRow.ok r) :
     loadTransitions conv (saveTransitions rows)
